@@ -462,18 +462,66 @@ def splice_fn(repo, file, item_path, sections, trait=None, nth=0, opts=(), canar
         if 'with ' + kk not in sections:
             raise AnchorLost('template: //@replace %s without //@with %s' % (kk, kk))
         want = [t.text for t in rs.tokenize(sections[rk]) if t.kind not in ('ws', 'comment', 'doc')]
+        # `$1`, `$2`, .. in the pattern are wildcards for one balanced run of tokens (a call argument): the replacement may
+        # use them, so the arguments of a replaced call stay the real text
+        pat = []
+        j = 0
+        while j < len(want):
+            if want[j] == '$' and j + 1 < len(want) and want[j + 1].isdigit():
+                pat.append(('w', int(want[j + 1])))
+                j += 2
+            else:
+                pat.append(('t', want[j]))
+                j += 1
         body_ci = [k for k in range(body_open + 1, body_close) if toks[k].kind not in ('ws', 'comment', 'doc')]
+
+        def match_at(p0):
+            """-> (end code position inclusive, captures {n: (first_ci, last_ci)}) or None"""
+            q = p0
+            caps = {}
+            for pi, (kind, v) in enumerate(pat):
+                if kind == 't':
+                    if q >= len(body_ci) or toks[body_ci[q]].text != v:
+                        return None
+                    q += 1
+                else:
+                    # wildcard: up to (not including) the next literal token at depth 0
+                    if pi + 1 >= len(pat) or pat[pi + 1][0] != 't':
+                        return None
+                    stop = pat[pi + 1][1]
+                    depth, start = 0, q
+                    while q < len(body_ci):
+                        tq = toks[body_ci[q]]
+                        if depth == 0 and tq.text == stop:
+                            break
+                        if tq.kind == 'open':
+                            depth += 1
+                        elif tq.kind == 'close':
+                            depth -= 1
+                            if depth < 0:
+                                return None
+                        q += 1
+                    if q >= len(body_ci) or q == start:
+                        return None
+                    caps[v] = (start, q - 1)
+            return q - 1, caps
+
         hits = []
-        for p0 in range(0, len(body_ci) - len(want) + 1):
-            if toks[body_ci[p0]].text != want[0]:
+        for p0 in range(0, len(body_ci)):
+            if pat[0][0] == 't' and toks[body_ci[p0]].text != pat[0][1]:
                 continue
-            if all(toks[body_ci[p0 + j]].text == want[j] for j in range(len(want))):
-                hits.append(p0)
+            m = match_at(p0)
+            if m is not None:
+                hits.append((p0, m[0], m[1]))
         if (len(hits) != 1 and not many) or len(hits) == 0:
             raise AnchorLost('%s: //@replace %s matches %d times (statement text changed?)' % (item_path, kk, len(hits)))
-        for h in hits:
-            a_idx, b_idx = body_ci[h], body_ci[h + len(want) - 1]
-            ed.replace(a_idx, b_idx, sections['with ' + kk].strip())
+        for p0, pend, caps in hits:
+            a_idx, b_idx = body_ci[p0], body_ci[pend]
+            text = sections['with ' + kk].strip()
+            for n, (c0, c1) in caps.items():
+                cap_src = ''.join(t.text for t in toks[body_ci[c0]:body_ci[c1] + 1])
+                text = text.replace('$%d' % n, cap_src)
+            ed.replace(a_idx, b_idx, text)
             rules['X7-replace'] = rules.get('X7-replace', 0) + 1
             dropped.append('%s:%d statement replaced by an assumed environment call (X7): %s' % (
                 file, toks[a_idx].line, ' '.join(sections[rk].split())[:300]))
